@@ -438,7 +438,75 @@ def rule_cell_moments(ctx, rule='R15.10'):
     ctx.covered(rule, 'cell moments: leaf case of the visited cell itself; divisions by the accumulated mass are guarded', n, floor=4)
 
 
+def rule_moments_every_time(ctx, rule='R15.12'):
+    """R15.12: the leaves of the tree carry a copy of their particle's mass and position (the monopole the walk uses when it
+    reaches a leaf). The copy is refreshed by reb_simulation_update_tree_gravity_data, which the step calls before every
+    tree force evaluation; a leaf is re-created only when its particle leaves the cell, so nothing else keeps the copy
+    current. The refresh therefore visits every root cell on every call: nothing but the MPI locality test may stand between
+    the function's entry and the call of the per-cell routine (no early exit for "easy" parameter values)."""
+    from . import pathcond
+    tu = cfront.load_tu('tree.c')
+    fn = tu.func('reb_simulation_update_tree_gravity_data')
+    pc = pathcond.conditions(fn)
+    calls = [e for e in walk(cfront.body(fn)) if e.get('kind') == 'CallExpr' and callee_name(e) == 'reb_simulation_update_tree_gravity_data_in_cell']
+    anchor(calls, 'call of the per-cell refresh in reb_simulation_update_tree_gravity_data')
+    n = 0
+    for e in calls:
+        n += 1
+        cs = [c.replace(' ', '') for c in pc.get(id(e), [])]
+        other = [c for c in cs if not re.search(r'tree_root\[|rootbox_is_local|N_root', c)]
+        if other:
+            ctx.report(rule, 'gravity-data:conditional', 'src/tree.c:%s reb_simulation_update_tree_gravity_data' % line_of(e),
+                       'the refresh of the cells is skipped unless %s: the leaves keep the mass and position their particle had when the leaf was created, and the next force evaluation uses stale sources' % other)
+    ctx.covered(rule, 'the monopole data of the tree is refreshed for every root cell on every call (conditions on the way: root cell exists / is local)', n, floor=1)
+
+
+def rule_update_when_flagged(ctx, rule='R15.11'):
+    """R15.11: reb_boundary_check and reb_simulation_remove_particle only *flag* work for the tree (tree_needs_update = 1;
+    a particle that left an open box is marked and physically removed by the next tree update). Every tree update in
+    reb_simulation_step is therefore reached whenever the flag is raised: each condition on the way to the call is the flag
+    itself or a disjunction that contains it - never a conjunction with something else (a module test, "the collision
+    search will do it"), which leaves flagged particles in the arrays for the rest of the step."""
+    from . import pathcond
+    tu = cfront.load_tu('rebound.c')
+    fn = tu.func('reb_simulation_step')
+    pc = pathcond.conditions(fn)
+    n = 0
+
+    def conjuncts(c):
+        c = c.replace(' ', '')
+        out, depth, cur = [], 0, ''
+        i = 0
+        while i < len(c):
+            ch = c[i]
+            if ch == '(':
+                depth += 1
+            elif ch == ')':
+                depth -= 1
+            if depth <= 1 and c[i:i + 2] == '&&' and (depth == 0 or (c.startswith('(') and c.endswith(')') and depth == 1)):
+                out.append(cur)
+                cur = ''
+                i += 2
+                continue
+            cur += ch
+            i += 1
+        out.append(cur)
+        return out
+    for e in walk(cfront.body(fn)):
+        if e.get('kind') == 'CallExpr' and callee_name(e) == 'reb_simulation_update_tree':
+            n += 1
+            for c in pc.get(id(e), []):
+                for cj in conjuncts(c):
+                    if 'tree_needs_update' not in cj:
+                        ctx.report(rule, 'step:update_tree:%s' % line_of(e), 'src/rebound.c:%s reb_simulation_step' % line_of(e),
+                                   'the tree update is only reached if %s holds in addition to the flag: particles flagged by the boundary check (or by a removal) stay in the particle array - N is too large and the flagged particle (y = NaN) takes part in direct collision searches and force sums' % cj.strip('()'))
+    anchor(n >= 2, 'calls of reb_simulation_update_tree in reb_simulation_step')
+    ctx.covered(rule, 'tree updates in reb_simulation_step are reached whenever tree_needs_update is raised', n, floor=2)
+
+
 def run(ctx):
+    rule_update_when_flagged(ctx)
+    rule_moments_every_time(ctx)
     from . import c02 as _c02
     _c02.rule_components(ctx)             # R02.2: ghost-box image loops of every gravity routine treat the three axes alike
     rule_cell_moments(ctx)
